@@ -410,7 +410,8 @@ func judge(eng *Engine, cfg *Config, ck *CheckCfg, property, tier string, seed i
 			"samples":                       samples,
 			"explanation": "bounded symbolic execution of the real code (go/ssa of /repo's working tree + dependencies); every assertion and implicit Go check is an SMT query over all inputs taking the path; " +
 				"states = path end-states, transitions = fork points + solver queries",
-			"exhaustive":               len(incon) == 0,
+			"exhaustive":               len(incon) == 0 && ck.ExhaustiveTier == tier,
+			"all_paths_within_bounds_explored": len(incon) == 0,
 			"path_kinds":               kinds,
 			"functions_encoded":        fl,
 			"functions_encoded_count":  len(fl),
